@@ -28,14 +28,25 @@ def _fired(prop: str, repo: str, overlay) -> set:
 
 def run_variant(v: Dict[str, Any], repo: str, base_keys: set) -> Dict[str, Any]:
     overlay = {}
-    for rel, old, new in v["edits"]:
+    for ed in v["edits"]:
+        rel, old, new = ed[0], ed[1], ed[2]
+        nth = ed[3] if len(ed) > 3 else None  # (rel, old, new, k): replace the k-th of several occurrences
         src = overlay.get(rel)
         if src is None:
             with open(os.path.join(repo, rel), encoding="utf-8") as fh:
                 src = fh.read()
-        if src.count(old) != 1:
-            return {"id": v["id"], "status": "skipped", "why": f"anchor text occurs {src.count(old)}x in {rel}"}
-        overlay[rel] = src.replace(old, new)
+        cnt = src.count(old)
+        if nth is None:
+            if cnt != 1:
+                return {"id": v["id"], "status": "skipped", "why": f"anchor text occurs {cnt}x in {rel}"}
+            overlay[rel] = src.replace(old, new)
+        else:
+            if cnt <= nth:
+                return {"id": v["id"], "status": "skipped", "why": f"anchor text occurs {cnt}x in {rel}, need #{nth}"}
+            pos = -1
+            for _ in range(nth + 1):
+                pos = src.index(old, pos + 1)
+            overlay[rel] = src[:pos] + new + src[pos + len(old):]
     try:
         rules, keys = _fired(v["prop"], repo, overlay)
     except AnalysisError as e:
@@ -43,6 +54,9 @@ def run_variant(v: Dict[str, Any], repo: str, base_keys: set) -> Dict[str, Any]:
         if v.get("expect") and v.get("analysis_error_ok"):
             return {"id": v["id"], "status": "ok", "fired": ["ANALYSIS-ERROR"]}
         return {"id": v["id"], "status": "failed", "why": f"analysis error: {e}"}
+    except Exception as e:  # the checker itself crashed on this variant
+        import traceback
+        return {"id": v["id"], "status": "failed", "why": "checker crashed: " + traceback.format_exc().splitlines()[-1] + " @ " + traceback.format_exc().splitlines()[-3].strip()}
     new_keys = keys - base_keys
     expect = set(v.get("expect", []))
     if expect:
